@@ -163,3 +163,28 @@ PROPS['C18'] = {
     'explanation': 'Functional-postcondition argument under demonic map iteration at the listed sites (DESIGN.md section 4, C18); not a whole-program determinism proof.',
     'not_decided': ['byte-identical output across processes for whole commands', 'clock independence beyond the seed', 'map-ranging functions not under contract (acr alphabet, nexus WriteNexus, TipBag.Tips, UpdateTipIndex, Merge)'],
 }
+
+PROPS['C02'] = {
+    'level': 'proof', 'claimed': True,
+    'claim': 'unbounded no-panic proofs (every index/slice/nil/division fault obligation discharged for all byte streams, the reader being an arbitrary source of lines/runes) for the functions listed in functions_under_contract; started with fileutils.ReadUntilSemiColon (multi-tree splitter) - further reader functions are added as their obligations discharge',
+    'level_note': 'bufio/bytes/strings/strconv are trusted to be total and to return well-typed values; termination is proved only where a decreases clause is given; memory and stack exhaustion are environment facts',
+    'packages': ALLPK,
+    'functions': ['io/fileutils.ReadUntilSemiColon', 'io/utils.ReadMultiTrees$1', 'io/utils.ReadTreeReader'],
+    'trusted_base': TB_COMMON,
+    'assumptions': A_COMMON,
+    'not_decided': ['memory / stack exhaustion on huge nesting', 'faults inside encoding/xml, encoding/json, bufio, strconv, goalign'],
+}
+
+PROPS['C13'] = {
+    'level': 'other', 'claimed': True,
+    'claim': 'proved agreement contracts on the real reader entry points: the multi-tree reader goroutine sends, for every format, records that are a tree or an error, with identifiers 0,1,2,... in sending order, and closes the channel exactly once at the end; the Newick stream splitter stops exactly at a line whose last non-blank byte of the accumulated text is ";"; PhyloXML FirstTree returns a tree whenever the document has a phylogeny (built by the same constructor IterateTrees uses, which calls its callback once per phylogeny in document order); Nexus FirstTree is trees[0]; ReadTreeReader returns a tree or an error for all four formats and an error for any other format value. Conversion chains (write then read) are not decided',
+    'level_note': 'parser bodies (nexus Parse, phyloxml Parse via encoding/xml, newick Parse) enter through assumed thin contracts; callbacks passed to IterateTrees are verified separately and their effects havocked at the call; whole-document parse(write(t)) identities are outside this technique (DESIGN.md section 5)',
+    'packages': ALLPK,
+    'functions': ['io/utils.ReadMultiTrees$1', 'io/utils.ReadMultiTrees$1$1', 'io/utils.ReadMultiTrees$1$2', 'io/utils.ReadTreeReader',
+                  '(*io/phyloxml.PhyloXML).FirstTree', '(*io/phyloxml.PhyloXML).IterateTrees',
+                  '(*io/nexus.Nexus).FirstTree', '(*io/nexus.Nexus).AddTree', 'io/fileutils.ReadUntilSemiColon'],
+    'trusted_base': TB_COMMON,
+    'assumptions': A_COMMON,
+    'explanation': 'Relational / agreement contracts on the entry points, proved deductively; format conversion round trips are compositions outside the reach of per-function contracts and are not claimed.',
+    'not_decided': ['Newick <-> Nexus <-> PhyloXML conversion round trips (whole-document identities)', 'Nexus translate table inverse renaming', 'PhyloXML field correspondence writeClade/cladeToTree'],
+}
